@@ -26,7 +26,7 @@ theorem lag_step_a1 {σ : St} (h : LagInv σ) (id : Nat) (cs b : Int) (d : Time)
         pc := .a2 id } := by
     unfold step; simp [hpc, hnz, s3, insertEv]
   rw [hstep]
-  refine ⟨⟨h.base.noErr, Time.norm_zero, hn, ?_, ?_, h.base.remNonneg, h.base.fired⟩, ?_⟩
+  refine ⟨⟨h.base.noErr, h.base.cfg, Time.norm_zero, hn, ?_, ?_, h.base.remNonneg, h.base.fired⟩, ?_⟩
   · intro e he; simp at he; subst he; exact hn
   · simp [Sorted]
   · refine (pcInv_of (pc := .a2 id) rfl).mpr ?_
@@ -49,14 +49,14 @@ theorem lag_step_a2 {σ : St} (h : LagInv σ) (id : Nat) (hpc : σ.pc = .a2 id) 
     unfold step; simp [hpc, hok']
   rw [hstep]
   have hL : σ.ltr.toUs = cs * 10000 := by rw [h7]; exact hu
-  refine ⟨⟨h.base.noErr, h.base.normT, h.base.normL, h.base.normP, h.base.sorted, ?_,
+  refine ⟨⟨h.base.noErr, h.base.cfg, h.base.normT, h.base.normL, h.base.normP, h.base.sorted, ?_,
     base_fired_cons (by intros; simp) h.base.fired⟩, ?_⟩
   · show 0 ≤ σ.sigOnce.toUs
     rw [h5, hL]; omega
   · refine (pcInv_of (pc := .cEnd id) rfl).mpr ?_
     simp only [PcInvAt]
     refine ⟨h1, Or.inl ⟨rfl, ?_, ?_, ⟨_, [], h6, ?_⟩, ?_⟩⟩
-    · show 0 < σ.sigOnce.toUs
+    · show 0 ≤ σ.sigOnce.toUs
       rw [h5, hL]; omega
     · show σ.sigOnce.toUs ≤ σ.ltr.toUs
       rw [h5]; exact Int.le_refl _
@@ -82,7 +82,7 @@ theorem lag_step_b1 {σ : St} (h : LagInv σ) (id : Nat) (cs b : Int) (d : Time)
   rw [hstep]
   have ttsN : (getTimer σ).Norm := Time.mk2_timer_norm h.base.remNonneg
   have ttsU : (getTimer σ).toUs = σ.remaining := Time.mk2_timer_toUs h.base.remNonneg
-  refine ⟨⟨h.base.noErr, h.base.normT, h.base.normL, h.base.normP, h.base.sorted, h.base.remNonneg,
+  refine ⟨⟨h.base.noErr, h.base.cfg, h.base.normT, h.base.normL, h.base.normP, h.base.sorted, h.base.remNonneg,
     base_fired_cons (by intros; simp) h.base.fired⟩, ?_⟩
   refine (pcInv_of (pc := .b2 id cs b d (getTimer σ)) rfl).mpr ?_
   simp only [PcInvAt]
@@ -121,7 +121,7 @@ theorem lag_step_b2 {σ : St} (h : LagInv σ) (id : Nat) (cs b : Int) (d tts : T
         pc := .cEnd id } := by
       unfold step; simp [hpc, hlt]
     rw [hstep]
-    refine ⟨⟨h.base.noErr, h.base.normT, h.base.normL, hnormP', hsorted', h.base.remNonneg, h.base.fired⟩, ?_⟩
+    refine ⟨⟨h.base.noErr, h.base.cfg, h.base.normT, h.base.normL, hnormP', hsorted', h.base.remNonneg, h.base.fired⟩, ?_⟩
     refine (pcInv_of (pc := .cEnd id) rfl).mpr ?_
     simp only [PcInvAt]
     refine ⟨h1, Or.inl ⟨a1, a2, a3, ⟨hd, tl, by rw [hpd]; exact hins, ?_⟩, ?_⟩⟩
@@ -147,7 +147,7 @@ theorem lag_step_b2 {σ : St} (h : LagInv σ) (id : Nat) (cs b : Int) (d tts : T
         pc := .b3 id } := by
       unfold step; simp [hpc, hlt, hnz]
     rw [hstep]
-    refine ⟨⟨h.base.noErr, curN, hn, hnormP', hsorted', h.base.remNonneg, h.base.fired⟩, ?_⟩
+    refine ⟨⟨h.base.noErr, h.base.cfg, curN, hn, hnormP', hsorted', h.base.remNonneg, h.base.fired⟩, ?_⟩
     refine (pcInv_of (pc := .b3 id) rfl).mpr ?_
     simp only [PcInvAt]
     refine ⟨h1, a1, rfl, ?_, ⟨hd, tl, by rw [hpd]; exact hins, ?_⟩, ?_⟩
@@ -179,15 +179,15 @@ theorem lag_step_b3 {σ : St} (h : LagInv σ) (id : Nat) (hpc : σ.pc = .b3 id) 
         pc := .cEnd id } := by
     unfold step; simp [hpc, hok']
   rw [hstep]
-  refine ⟨⟨h.base.noErr, h.base.normT, h.base.normL, h.base.normP, h.base.sorted, ?_,
+  refine ⟨⟨h.base.noErr, h.base.cfg, h.base.normT, h.base.normL, h.base.normP, h.base.sorted, ?_,
     base_fired_cons (by intros; simp) h.base.fired⟩, ?_⟩
   · show 0 ≤ σ.sigOnce.toUs
     rw [p2]; omega
   · refine (pcInv_of (pc := .cEnd id) rfl).mpr ?_
     simp only [PcInvAt]
     refine ⟨h1, Or.inl ⟨p1, ?_, ?_, p4, ?_⟩⟩
-    · show 0 < σ.sigOnce.toUs
-      rw [p2]; exact p3
+    · show 0 ≤ σ.sigOnce.toUs
+      rw [p2]; exact Int.le_of_lt p3
     · show σ.sigOnce.toUs ≤ σ.ltr.toUs
       rw [p2]; exact Int.le_refl _
     · intro e he
@@ -195,21 +195,42 @@ theorem lag_step_b3 {σ : St} (h : LagInv σ) (id : Nat) (hpc : σ.pc = .b3 id) 
       show e.gBirth + e.gCs * 10000 + (σ.tsf.toUs + σ.ltr.toUs - σ.sigOnce.toUs) ≤ e.deadline.toUs + σ.now
       rw [p2]; omega
 
+/-- the operation returns to its caller -/
+theorem lag_finish {σ : St} (hb : Base σ) (hc : σ.inCrit = false) (hst : Stable σ) (fin : Fin) :
+    LagInv (finish σ fin) := by
+  cases fin with
+  | ctor id =>
+    refine ⟨⟨hb.noErr, hb.cfg, hb.normT, hb.normL, hb.normP, hb.sorted, hb.remNonneg,
+      base_fired_cons (by intros; simp) hb.fired⟩, ?_⟩
+    refine (pcInv_of (pc := .idle) rfl).mpr ?_
+    simp only [PcInvAt]
+    exact ⟨hc, hst⟩
+  | dtor id =>
+    refine ⟨⟨hb.noErr, hb.cfg, hb.normT, hb.normL, hb.normP, hb.sorted, hb.remNonneg,
+      base_fired_cons (by intros; simp) hb.fired⟩, ?_⟩
+    refine (pcInv_of (pc := .idle) rfl).mpr ?_
+    simp only [PcInvAt]
+    exact ⟨hc, hst⟩
+
+/-- `leave_critical_section` up to the test of `timeout_deferred` -/
+theorem lag_leave {σ : St} (hb : Base σ) (hst : Stable σ) (fin : Fin) : LagInv (leave σ fin) := by
+  unfold leave
+  split
+  · refine ⟨⟨hb.noErr, hb.cfg, hb.normT, hb.normL, hb.normP, hb.sorted, hb.remNonneg, hb.fired⟩, ?_⟩
+    refine (pcInv_of (pc := .l2 fin) rfl).mpr ?_
+    simp only [PcInvAt]
+    exact ⟨trivial, hst⟩
+  · have hb' : Base { σ with inCrit := false } :=
+      ⟨hb.noErr, hb.cfg, hb.normT, hb.normL, hb.normP, hb.sorted, hb.remNonneg, hb.fired⟩
+    exact lag_finish hb' rfl hst fin
+
 theorem lag_step_cEnd {σ : St} (h : LagInv σ) (id : Nat) (hpc : σ.pc = .cEnd id) :
     LagInv (step false σ) := by
   have hp := (pcInv_of hpc).mp h.pcInv
   simp only [PcInvAt] at hp
-  have hstep : step false σ = { σ with
-        inCrit := false
-        live := id :: σ.live
-        log := .constructed id σ.now :: σ.log
-        pc := .idle } := by
+  have hstep : step false σ = leave σ (.ctor id) := by
     unfold step; simp [hpc]
   rw [hstep]
-  refine ⟨⟨h.base.noErr, h.base.normT, h.base.normL, h.base.normP, h.base.sorted, h.base.remNonneg,
-    base_fired_cons (by intros; simp) h.base.fired⟩, ?_⟩
-  refine (pcInv_of (pc := .idle) rfl).mpr ?_
-  simp only [PcInvAt]
-  exact ⟨trivial, hp.2⟩
+  exact lag_leave h.base hp.2 _
 
 end PPLV.Watchdog
